@@ -155,6 +155,21 @@ where
     }
 }
 
+#[cfg(mina_verif)]
+impl<State, Timeline, TimelineMap> MappedTimelineAnimator<State, Timeline, TimelineMap>
+where
+    State: Clone + PartialEq,
+    Timeline: crate::timeline::Timeline,
+    Timeline::Target: Clone,
+    TimelineMap: MapLike<State, MergedTimeline<Timeline>>,
+{
+    /// Verification hook (only with `--cfg mina_verif`): read-only copy of the time spent in the
+    /// current state and of the remembered (paused) animation.
+    pub fn verif_snapshot(&self) -> (Duration, Option<(State, Duration)>) {
+        (self.state_duration, self.paused_animation.clone())
+    }
+}
+
 impl<State, Timeline, TimelineMap> StateAnimator
     for MappedTimelineAnimator<State, Timeline, TimelineMap>
 where
